@@ -40,7 +40,7 @@ def run(ctx):
         n = max(len(d) for d in sess)
         specs.append(dict(session=sess, fn="heat", emb=(embs[i % len(embs)] if i % 3 else [DEC_EMBS[0], EXACT_EMBS[0], DEC_EMBS[0], DEC_EMBS[2]][(i // 3) % 4]), sigma_t=sig_anchor, anchor=1, aux=[], zerotol=Fraction(n, 10 ** 6) / Fraction(math.sqrt(8 * math.pi * sig_anchor))))
     for i in range(14 if quick else 120):
-        sigma_t = rng.choice([0.05, 0.4, 1.0, 2.5, 5.0])
+        sigma_t = rng.choice([0.05, 0.4, 1.0, 2.5, 5.0, 100.0, 2500.0])      # (for large bandwidths the stability bound is nearly attained)
         # (every third session is translated far along the diagonal, and the embeddings include the scales 2^-50 .. 2^60: persistence tiny
         #  relative to the coordinates, or tiny / huge in absolute terms, on BOTH sides of the comparison with the Wasserstein distance)
         sess = laws.make_session(rng, 3, 14 if quick else 40, rng.choice([6, 12, 30]), neg=(i % 4 == 3), with_empty=(i % 2 == 0), far=(i % 3 == 1))
